@@ -101,6 +101,7 @@ def check(ctx):
     _rotations(rep, model)
     _surfaces(rep, model)
     _curved_detectors(rep, model)
+    _det_axes(rep, model)
     _composition(rep, model)
     _forwarding(rep, model)
     _coverage(rep, model)
@@ -578,6 +579,10 @@ def _coverage(rep, model):
         (Fr(3), Fr(5), Fr(7), Fr(-3, 2), Fr(3, 2)),
         (Fr(5), Fr(13), Fr(2), Fr(-6), Fr(6)),
         (Fr(8), Fr(17), Fr(17), Fr(-12), Fr(12)),
+        # volumes that are not symmetric about the source plane
+        (Fr(3), Fr(5), Fr(7), Fr(-3, 2), Fr(1, 2)),
+        (Fr(3), Fr(5), Fr(7), Fr(-1, 2), Fr(3, 2)),
+        (Fr(5), Fr(13), Fr(2), Fr(-6), Fr(2)),
     ]
 
     def space(rho, zmin, zmax, ndim):
@@ -608,6 +613,35 @@ def _coverage(rep, model):
                     raise Undecided('np.max(%r)' % (v,))
                 return Builtin('np.max', mx)
             return GH.on_getattr(self, interp, obj, name)
+
+        def on_name(self, interp, name):
+            if name in ('max', 'min'):
+                # arctan is increasing: max(arctan a, arctan b) =
+                # arctan(max(a, b)) for numbers a, b
+                def mm(*vals):
+                    if len(vals) == 1:
+                        vals = list(interp.seq(vals[0]))
+                    keyed = []
+                    for v in vals:
+                        r = to_rat(v)
+                        if r.is_const():
+                            keyed.append((r.constant(), r))
+                            continue
+                        vs_ = list(r.vars())
+                        if len(vs_) == 1 and isinstance(vs_[0], tuple) and \
+                                vs_[0][0] == 'arctan' and r == Rat.var(
+                                    vs_[0]) and vs_[0][1].is_const():
+                            keyed.append((vs_[0][1].constant(), r))
+                            continue
+                        raise Undecided('%s of %r' % (name, vals))
+                    kinds = {r.is_const() for _, r in keyed}
+                    if len(kinds) != 1 and any(
+                            not r.is_const() and k <= 0 for k, r in keyed):
+                        raise Undecided('%s of mixed values' % name)
+                    pick = max if name == 'max' else min
+                    return pick(keyed, key=lambda kr: kr[0])[1]
+                return Builtin(name, mm)
+            return NotImplemented
 
         def on_call(self, interp, f, args, kwargs, node):
             if isinstance(f, Func) and f.name == 'uniform_partition':
@@ -856,3 +890,83 @@ def trig_reduce(r):
     if not rules:
         return r
     return Rat(r.n.reduce(rules), r.d.reduce(rules))
+
+
+# --------------------------------------------------------------------------
+# R3b: detector axes under motion = rotation matrix applied to each initial
+# axis, for one angle and for stacks of angles (entry by entry)
+def _det_axes(rep, model):
+    import numpy as _np
+    from ..namodel import NA, NAHooks, NAInterp, objarr
+
+    def R_of(tag, n=None):
+        shape = (3, 3) if n is None else (n, 3, 3)
+        a = _np.empty(shape, dtype=object)
+        for idx in _np.ndindex(*shape):
+            a[idx] = Rat.var('%s%s' % (tag, ''.join(map(str, idx))))
+        return NA(a, 'float64')
+
+    A0 = _np.empty((2, 3), dtype=object)
+    for idx in _np.ndindex(2, 3):
+        A0[idx] = Rat.var('a%d%d' % idx)
+
+    class H(NAHooks):
+        def __init__(self, R):
+            self.R = R
+
+        def on_getattr(self, interp, obj, name):
+            if isinstance(obj, Inst):
+                if name == 'rotation_matrix':
+                    return Builtin('rotation_matrix', lambda ang: self.R)
+                if name == 'det_axes_init':
+                    return NA(A0.copy(), 'float64')
+            return NAHooks.on_getattr(self, interp, obj, name)
+
+    n = 0
+    for cname in ('Parallel3dAxisGeometry', 'Parallel3dEulerGeometry',
+                  'ConeBeamGeometry'):
+        ci = model.get(cname)
+        if ci is None or 'det_axes' not in ci.methods:
+            continue
+        for stack in (None, 2):
+            n += 1
+            tag = '%s.det_axes[%s]' % (cname, 'one angle' if stack is None
+                                       else '%d angles' % stack)
+            try:
+                R = R_of('r', stack)
+                I = NAInterp(model, {}, H(R))
+                g = Inst(ci)
+                out = I.call(I.getattr_value(g, 'det_axes'),
+                             [Rat.var('phi') if stack is None else
+                              NA(objarr([Rat.var('phi0'), Rat.var('phi1')]),
+                                 'float64')], {})
+                if not isinstance(out, NA):
+                    raise Undecided('result %r' % (out,))
+                want_shape = (2, 3) if stack is None else (stack, 2, 3)
+                probs = []
+                if out.a.shape != want_shape:
+                    probs.append('shape %r, documented %r'
+                                 % (out.a.shape, want_shape))
+                else:
+                    for idx in _np.ndindex(*want_shape):
+                        k, c = idx[-2], idx[-1]
+                        Rm = R.a if stack is None else R.a[idx[0]]
+                        want = sum((to_rat(Rm[c, j]) * to_rat(A0[k, j])
+                                    for j in range(3)), Rat.const(0))
+                        if not (to_rat(out.a[idx]) - want).is_zero():
+                            probs.append('entry %r is %r, the rotated '
+                                         'initial axis has %r'
+                                         % (idx, out.a[idx], want))
+                            break
+                if probs:
+                    rep.violation('R3', cname + '.det_axes', '%s: %s'
+                                  % (tag, probs[0]), ci.rel,
+                                  ci.methods['det_axes'].lineno)
+                else:
+                    rep.holds('R3', tag, 'axes[k] = R(angle) . axes_init[k]')
+            except Undecided as e:
+                rep.undecided('R3', tag, str(e), ci.rel)
+            except PyRaise as e:
+                rep.violation('R3', cname + '.det_axes', '%s: raises %s'
+                              % (tag, e.name), ci.rel)
+    rep.floor('R3', 'det_axes evaluations', n, 4)
